@@ -34,6 +34,7 @@ type c13Spec struct {
 	CloseErr   bool     `json:"close_err,omitempty"` // the transport's Close reports an error although it closes
 	Hand       string   `json:"hand,omitempty"`      // how the session came about: "" legacy initialize | fallback (client asked for its default version, the peer only knows initialize) | none (server: the peer never sends initialize) | discover (server: the peer opens with server/discover)
 	Pending    bool     `json:"pending,omitempty"`   // a user call that the peer never answers is outstanding (no deadline)
+	PendAnswer int      `json:"pend_answer,omitempty"` // > 0 (live peers only): the peer answers that call this many thirds of an interval after the harness called Close
 }
 
 func genC13(r *vh.Rand, idx int) c13Spec {
@@ -75,6 +76,35 @@ func genC13(r *vh.Rand, idx int) c13Spec {
 		}
 	}
 	s.Pending = r.Chance(1, 4)
+	if r.Chance(1, 6) {
+		// a live peer that is merely slow with one call, and an application that closes gracefully meanwhile
+		s.Pending = true
+		for i := range s.Pattern {
+			s.Pattern[i] = "A"
+		}
+		s.PendAnswer = r.Range(2, 14)
+	}
+	if s.Pending && s.PendAnswer == 0 && r.Chance(1, 2) {
+		// the application's Close arrives while the ping that completes the failure threshold is in flight
+		thr, run := max(1, s.Threshold), 0
+	scan:
+		for i, o := range s.Pattern {
+			switch o {
+			case "A", "L":
+				run = 0
+			case "N", "D":
+				break scan
+			default:
+				run++
+				if run >= thr {
+					if o != "R" {
+						s.CloseAfter = i + 1
+					}
+					break scan
+				}
+			}
+		}
+	}
 	return s
 }
 
@@ -106,6 +136,8 @@ func runC13(c *vh.Case, spec c13Spec) {
 	}
 	var cmu sync.Mutex
 	rejectCancel := false
+	var pendID jsonrpc.ID
+	havePend := false
 	nPing := 0
 	sc.OnWrite = func(wctx context.Context, msg jsonrpc.Message) error {
 		req, ok := msg.(*jsonrpc.Request)
@@ -133,7 +165,10 @@ func runC13(c *vh.Case, spec c13Spec) {
 		case "tools/list", "roots/list":
 			if spec.Pending {
 				log.Add("user-call-received")
-				return nil // never answered
+				cmu.Lock()
+				pendID, havePend = req.ID, true
+				cmu.Unlock()
+				return nil // not answered (yet)
 			}
 		case "ping":
 			i := nPing
@@ -228,10 +263,36 @@ func runC13(c *vh.Case, spec c13Spec) {
 		}()
 	}
 	time.Sleep(time.Duration(spec.CloseAfter)*iv + iv/4)
-	ucancel()
-	synctestWait()
-	log.Add("harness-close")
-	closeFn()
+	if userCall == nil {
+		log.Add("harness-close")
+		closeFn()
+	} else {
+		// The application closes gracefully while its own call is still outstanding. Close waits for the call:
+		// it ends when the peer answers, when keep-alive gives the peer up, or when the caller gives up.
+		synctestWait()
+		log.Add("harness-close")
+		closed := make(chan struct{})
+		go func() {
+			closeFn()
+			log.Add("harness-close-returned")
+			close(closed)
+		}()
+		if spec.PendAnswer > 0 {
+			time.Sleep(time.Duration(spec.PendAnswer) * iv / 3)
+			cmu.Lock()
+			id, ok := pendID, havePend
+			cmu.Unlock()
+			if ok {
+				log.Add("user-call-answered")
+				sc.Inject(vhm.Resp(id, `{"tools":[],"roots":[]}`))
+			}
+		} else {
+			time.Sleep(iv)
+			log.Add("user-gives-up")
+			ucancel()
+		}
+		<-closed
+	}
 	synctestWait()
 	// Close leaves no keep-alive goroutine (and hence no ticker) behind
 	if st := vh.BubbleStacks(); strings.Contains(st, "mcp.startKeepalive") {
@@ -308,8 +369,39 @@ func decideC13(c *vh.Case, spec c13Spec) {
 			}
 		}
 	}
+	// events of the graceful Close made while the user's own call was outstanding
+	userIssued := false
+	var answeredT, givesUpT int64 = -1, -1
+	var userRet *vh.Event
+	for _, e := range c.Log.Events() {
+		e := e
+		switch e.Kind {
+		case "user-call":
+			userIssued = true
+		case "user-call-answered":
+			answeredT = e.T
+		case "user-gives-up":
+			givesUpT = e.T
+		case "user-call-returned":
+			userRet = &e
+		}
+	}
+	graceful := int64(-1) // > 0: the instant at which the harness's graceful Close is due to complete on its own terms
 	if wantClose > harnessClose {
-		wantClose = -1 // the harness closed the session first
+		if userIssued {
+			// the ping that completes the threshold was already in flight when the application called Close (which
+			// waits for the outstanding call): keep-alive still gives the peer up when that ping times out
+		} else {
+			wantClose = -1 // the harness closed the session first
+		}
+	}
+	if wantClose < 0 && userIssued {
+		switch {
+		case answeredT >= 0:
+			graceful = answeredT
+		case givesUpT >= 0:
+			graceful = givesUpT
+		}
 	}
 	var got []int64
 	for _, p := range pings {
@@ -353,6 +445,31 @@ func decideC13(c *vh.Case, spec c13Spec) {
 			c.Violate("dead-session-close-instant", "after %d consecutive failed pings (threshold %d) the session must be closed at %v; transport close observed at %v (pattern %v)", thr, spec.Threshold, time.Duration(wantClose)*time.Microsecond, time.Duration(tclose)*time.Microsecond, spec.Pattern)
 			return
 		}
+	} else if graceful >= 0 {
+		if tclose != graceful {
+			c.Violate("graceful-close-cut-short", "the application called Close at %v with its own call outstanding; the session must end when that call does (%v): transport close observed at %v (pattern %v)", time.Duration(harnessClose)*time.Microsecond, time.Duration(graceful)*time.Microsecond, time.Duration(tclose)*time.Microsecond, spec.Pattern)
+			return
+		}
+		if answeredT >= 0 && (userRet == nil || fmt.Sprint(userRet.F["err"]) != "<nil>") {
+			c.Violate("live-call-failed-by-keepalive", "the peer answered the outstanding call at %v (all pings were answered), yet the call returned %v", time.Duration(answeredT)*time.Microsecond, userRet)
+			return
+		}
+		c.Count("graceful_closes_with_call_outstanding", 1)
+	} else if inflightUntil := func() int64 {
+		// a keep-alive ping that is still unanswered when the application calls Close is an outstanding call like
+		// any other: the graceful Close may wait for it, at most until the ping's own deadline
+		for i := range wantPings {
+			o := "A"
+			if i < len(spec.Pattern) {
+				o = spec.Pattern[i]
+			}
+			if tp := wantPings[i]; tp <= harnessClose && harnessClose < tp+iv/2 && (o == "S" || o == "C" || o == "W" || o == "L") {
+				return tp + iv/2
+			}
+		}
+		return harnessClose
+	}(); tclose >= harnessClose && tclose <= inflightUntil {
+		// closed by the application, on time
 	} else if tclose != harnessClose {
 		c.Violate("live-session-closed", "the session was closed at %v, before the harness closed it at %v, although no run of %d consecutive failures occurred (pattern %v)", time.Duration(tclose)*time.Microsecond, time.Duration(harnessClose)*time.Microsecond, thr, spec.Pattern)
 		return
